@@ -127,10 +127,10 @@ theorem C13_builder_refines (o : Ora) (i : Logout.In) (reqID url status message 
       Builders.logoutMsgOf r = Logout.mkMsg i reqID url status ∧ r.Version = "2.0" :=
   Builders.makeLogoutResponse_refines o i reqID url status message hid
 
-theorem C13_source_current : Gen.Facts.sloChain = Expected.sloChain ∧ Consts.current = true ∧
-    FactsUtil.sameHashes ["provider.getLogoutRequestFromRequest", "provider.LogoutResponse.sendBackLogoutResponse",
-      "provider.LogoutResponse.makeFailedLogoutResponse", "provider.LogoutResponse.makeSuccessfulLogoutResponse",
-      "xml.DecodeLogoutRequest"] = true := ⟨by decide, by decide, by decide⟩
+/-- what stays fingerprinted for C13: the constants and the decoder (an oracle of the translated handler).  The handler,
+    its form reader, the two builders and `sendBackLogoutResponse` are translated on every run and tied by proof
+    (`LogoutGen.logout_handler_refines`, `LogoutGen.sloSendBack_renders`, Props/LogoutProps.lean) -/
+theorem C13_source_current : Consts.current = true ∧ FactsUtil.sameHashes ["xml.DecodeLogoutRequest"] = true := ⟨by decide, by decide⟩
 
 /-- non-vacuity -/
 def ora0 : Ora where
